@@ -1,9 +1,9 @@
 From Verif Require Import Base.Prelude Model.SwissMap.
 Local Open Scope N_scope.
 
-Definition sm_inv (m : smap) : Prop := NoDup (map fst m).
+Definition sm_inv {A} (m : smap_of A) : Prop := NoDup (map fst m).
 
-Lemma load_remove m k k' : sm_load (sm_remove m k) k' = if k' =? k then None else sm_load m k'.
+Lemma load_remove {A} (m : smap_of A) k k' : sm_load (sm_remove m k) k' = if k' =? k then None else sm_load m k'.
 Proof.
   induction m as [|[a b] r IH]; cbn [sm_remove sm_load].
   - destruct (k' =? k); reflexivity.
@@ -15,13 +15,13 @@ Proof.
       * reflexivity.
 Qed.
 
-Lemma load_store m k v k' : sm_load (sm_store m k v) k' = if k' =? k then Some v else sm_load m k'.
+Lemma load_store {A} (m : smap_of A) k v k' : sm_load (sm_store m k v) k' = if k' =? k then Some v else sm_load m k'.
 Proof.
   unfold sm_store; cbn [sm_load]. rewrite load_remove.
   destruct (N.eqb_spec k k') as [H|H]; destruct (N.eqb_spec k' k) as [H2|H2]; congruence.
 Qed.
 
-Lemma keys_remove m k a : In a (map fst (sm_remove m k)) <-> a <> k /\ In a (map fst m).
+Lemma keys_remove {A} (m : smap_of A) k a : In a (map fst (sm_remove m k)) <-> a <> k /\ In a (map fst m).
 Proof.
   induction m as [|[x y] r IH]; cbn [sm_remove map fst In].
   - tauto.
@@ -32,7 +32,7 @@ Proof.
       * tauto.
 Qed.
 
-Lemma inv_remove m k : sm_inv m -> sm_inv (sm_remove m k).
+Lemma inv_remove {A} (m : smap_of A) k : sm_inv m -> sm_inv (sm_remove m k).
 Proof.
   unfold sm_inv. induction m as [|[x y] r IH]; cbn [sm_remove map fst]; intros H.
   - constructor.
@@ -42,7 +42,7 @@ Proof.
       intros Hin. apply keys_remove in Hin. tauto.
 Qed.
 
-Lemma inv_store m k v : sm_inv m -> sm_inv (sm_store m k v).
+Lemma inv_store {A} (m : smap_of A) k v : sm_inv m -> sm_inv (sm_store m k v).
 Proof.
   intros H. unfold sm_inv, sm_store. cbn [map fst]. constructor; [|apply inv_remove; assumption].
   intros Hin. apply keys_remove in Hin. tauto.
@@ -70,7 +70,7 @@ Proof.
   apply IH, step_inv, H.
 Qed.
 
-Lemma keys_load m k : In k (map fst m) <-> sm_load m k <> None.
+Lemma keys_load {A} (m : smap_of A) k : In k (map fst m) <-> sm_load m k <> None.
 Proof.
   induction m as [|[x y] r IH]; cbn [map fst In sm_load].
   - split; [tauto|congruence].
@@ -79,7 +79,7 @@ Proof.
     + rewrite <- IH. tauto.
 Qed.
 
-Lemma in_load m k v : sm_inv m -> (In (k, v) m <-> sm_load m k = Some v).
+Lemma in_load {A} (m : smap_of A) k v : sm_inv m -> (In (k, v) m <-> sm_load m k = Some v).
 Proof.
   unfold sm_inv. induction m as [|[x y] r IH]; cbn [map fst In sm_load]; intros H.
   - split; [tauto|congruence].
